@@ -294,12 +294,19 @@ fn pairwise_disjoint(l: &[(u32, u32)]) -> bool {
 
 /// try_from_iter / try_from_list on an arbitrary list: Ok iff pairwise disjoint, and equal to push
 pub fn check_from_iter(list: &[(u32, u32)], o: &mut Outcome) {
-    o.evals += 2;
+    o.evals += 4;
     let sets: Vec<CharSet> = list.iter().map(|&(a, b)| CharSet::range(a, b)).collect();
     let r1 = CharPartition::try_from_iter(sets.iter().copied());
     let r2 = CharPartition::try_from_list(&sets);
+    // the argument is "an iterator": the same sets through adaptors with an inexact size_hint / lazy items
+    let r3 = CharPartition::try_from_iter(sets.iter().copied().filter(|_| true));
+    let mut k = 0;
+    let r4 = CharPartition::try_from_iter(std::iter::from_fn(|| {
+        k += 1;
+        sets.get(k - 1).copied()
+    }));
     let disjoint = pairwise_disjoint(list);
-    for (name, r) in [("try_from_iter", &r1), ("try_from_list", &r2)] {
+    for (name, r) in [("try_from_iter", &r1), ("try_from_list", &r2), ("try_from_iter(filter)", &r3), ("try_from_iter(from_fn)", &r4)] {
         match r {
             Ok(p) => {
                 if !disjoint {
